@@ -12,6 +12,7 @@ import (
 	"strconv"
 	"strings"
 	"sync"
+	"sync/atomic"
 	"time"
 
 	"github.com/google/inverting-proxy/agent/utils"
@@ -93,6 +94,7 @@ func c06Main(specBytes []byte) {
 
 type c06Server struct {
 	l        net.Listener
+	acted    int64 // failing attempts whose fault has been carried out
 	mu       sync.Mutex
 	attempts []C06Attempt
 	payloads [][]byte
@@ -124,6 +126,7 @@ func (s *c06Server) serve() {
 }
 
 func (s *c06Server) act(conn net.Conn, f C06Fault) {
+	defer atomic.AddInt64(&s.acted, 1)
 	switch f.Kind {
 	case "e5xx":
 		conn.Write([]byte("HTTP/1.1 503 Service Unavailable\r\nContent-Length: 0\r\nConnection: close\r\n\r\n"))
@@ -261,6 +264,16 @@ func c06Run(c C06Case, bound time.Duration) C06Result {
 	go srv.serve()
 	defer l.Close()
 
+	target := "http://" + l.Addr().String() + "/"
+	refused := len(c.Attempts) > 0 && c.Attempts[0].Kind == "refused"
+	if refused {
+		// nothing listens: every attempt fails at connect time, before the body is touched
+		dead, err := net.Listen("tcp", "127.0.0.1:0")
+		if err == nil {
+			target = "http://" + dead.Addr().String() + "/"
+			dead.Close()
+		}
+	}
 	client := &http.Client{Timeout: 60 * time.Second, Transport: &http.Transport{}}
 	defer client.CloseIdleConnections()
 	req, _ := http.ReadRequest(bufio.NewReader(strings.NewReader("GET /x HTTP/1.1\r\nHost: example\r\n\r\n")))
@@ -272,7 +285,7 @@ func c06Run(c C06Case, bound time.Duration) C06Result {
 	go func() {
 		defer close(done)
 		p := Recovered(func() {
-			rw, err := utils.NewResponseForwarder(client, "http://"+l.Addr().String()+"/", "backend", "req-"+c.ID, req, nil)
+			rw, err := utils.NewResponseForwarder(client, target, "backend", "req-"+c.ID, req, nil)
 			if err != nil {
 				hm.Lock()
 				hWriteErr = "new: " + err.Error()
@@ -283,8 +296,26 @@ func c06Run(c C06Case, bound time.Duration) C06Result {
 			rw.Header().Add("Set-Cookie", "a="+c.ID)
 			rw.Header().Add("Set-Cookie", "b="+c.ID)
 			rw.Header().Set("Trailer", "X-T")
-			if c.HeaderMs > 0 {
+			if c.HeaderMs > 0 && refused {
 				time.Sleep(time.Duration(c.HeaderMs) * time.Millisecond)
+			} else if c.HeaderMs > 0 {
+				// a slow backend: produce the response header only after the scripted leading failures have
+				// all happened (a logical condition, not a fixed delay), bounded by 5 s
+				// wait until the fault server has seen no new failing attempt for HeaderMs (quiescence), at most 3 s
+				last, lastChange := int64(0), time.Now()
+				for dl := time.Now().Add(5 * time.Second); time.Now().Before(dl); {
+					n := atomic.LoadInt64(&srv.acted)
+					if n != last {
+						last, lastChange = n, time.Now()
+					}
+					if n >= 3 || n >= 1 && time.Since(lastChange) >= 1500*time.Millisecond {
+						break
+					}
+					time.Sleep(5 * time.Millisecond)
+				}
+				if atomic.LoadInt64(&srv.acted) >= 3 {
+					time.Sleep(time.Duration(c.HeaderMs) * time.Millisecond) // let the client notice the last failure
+				}
 			}
 			rw.WriteHeader(207)
 			chunks := c.Chunks
